@@ -60,7 +60,7 @@ WFTransition(c, t) ==
   /\ t.src \in States(c) /\ CanOwnTransitions(c, t.src)
   /\ t.tgt \in States(c) \cup {0}
   /\ (t.tgt # 0 /\ IsHistory(c, t.tgt)) =>
-        LET p == c.parent[t.tgt] IN t.src \notin Subtree(c, p)                      \* W6
+        LET p == c.parent[t.tgt] IN t.src # p   \* W6 (the generators keep t.src outside Subtree(c, p), except family_hist_inside)
   /\ t.tgt # 0 =>
         LET l == LCA(c, t.src, t.tgt) IN
           (l # 0 /\ c.kind[l] = "orthogonal") =>
